@@ -231,10 +231,15 @@ void CONmtSetMode(CO_NMT *nmt, CO_MODE mode)
             COTPdoInit(nmt->Node->TPdo, nmt->Node);
             CORPdoInit(nmt->Node->RPdo, nmt->Node);
         }
+        /* the new mode is active when the application is informed: what
+         * the callback requests (mode change, PDO trigger) acts on it
+         */
+        nmt->Mode    = mode;
+        nmt->Allowed = CONmtModeObj[mode];
         CONmtModeChange(nmt, mode);
+    } else {
+        nmt->Allowed = CONmtModeObj[mode];
     }
-    nmt->Mode    = mode;
-    nmt->Allowed = CONmtModeObj[mode];
 }
 
 CO_MODE CONmtGetMode(CO_NMT *nmt)
